@@ -10,7 +10,13 @@ import (
 	"github.com/ulikunitz/xz"
 )
 
-func newGzipWriter(w io.Writer) io.WriteCloser { return gzip.NewWriter(w) }
+// as `gzip file` writes it: the header carries the original file name (and here a comment)
+func newGzipWriter(w io.Writer) io.WriteCloser {
+	z := gzip.NewWriter(w)
+	z.Name = "reads.fastx"
+	z.Comment = "made by the harness"
+	return z
+}
 func newBzip2Writer(w io.Writer) (io.WriteCloser, error) {
 	return bzip2.NewWriter(w, &bzip2.WriterConfig{Level: 6})
 }
